@@ -6,6 +6,7 @@ package pubsub
 import (
 	"context"
 	"fmt"
+	"math"
 	"sort"
 	"sync"
 	"time"
@@ -189,6 +190,9 @@ func gsParamsFromPlan(p *Plan) GossipSubParams {
 	gp.OpportunisticGraftTicks = uint64(p.ki("opp_ticks", int(gp.OpportunisticGraftTicks)))
 	gp.OpportunisticGraftPeers = p.ki("opp_peers", gp.OpportunisticGraftPeers)
 	gp.FanoutTTL = time.Duration(p.ki("fanout_ttl_s", 60)) * time.Second
+	if p.kb("fanout_ttl_max") {
+		gp.FanoutTTL = time.Duration(math.MaxInt64) // "never expire"
+	}
 	gp.PrunePeers = p.ki("prune_peers", gp.PrunePeers)
 	gp.DirectConnectTicks = uint64(p.ki("direct_ticks", 300))
 	gp.Connectors = p.ki("connectors", 2)
